@@ -28,6 +28,7 @@ mod c15;
 mod c16;
 mod c17;
 mod c18;
+mod xinf;
 
 use std::io::{BufRead, BufWriter, Write};
 
@@ -63,6 +64,7 @@ fn main() {
                 "C16" => c16::generate(thorough, seed, &mut out),
                 "C17" => c17::generate(thorough, seed, &mut out),
                 "C18" => c18::generate(thorough, seed, &mut out),
+                "XINF" => xinf::generate(thorough, seed, &mut out),
                 _ => {
                     eprintln!("unknown property");
                     std::process::exit(2)
@@ -93,6 +95,7 @@ fn main() {
                 "C16" => c16::run,
                 "C17" => c17::run,
                 "C18" => c18::run,
+                "XINF" => xinf::run,
                 _ => {
                     eprintln!("unknown property");
                     std::process::exit(2)
@@ -129,6 +132,7 @@ fn main() {
             "C16" => c16::dump(&mut out),
             "C17" => c17::dump(&mut out),
             "C18" => c18::dump(&mut out),
+            "XINF" => xinf::dump(&mut out),
             _ => {
                 eprintln!("unknown property");
                 std::process::exit(2)
